@@ -61,7 +61,23 @@ PAIRS = {
     "inflate.c:inflateMark": [Z + "inflate::mark"],
     "inflate.c:inflateGetHeader": [Z + "inflate::get_header"],
     "inflate.c:inflate": [Z + "inflate::inflate"],
+    "infback.c:inflateBack": [Z + "inflate::infback::back"],
 }
+G = "libz_rs_sys::gz::"
+for _f, _names in (("gzread.c", ["gz_load", "gz_avail", "gz_look", "gz_decomp", "gz_fetch", "gz_skip", "gz_read", "gzread", "gzfread", "gzgetc",
+                                 "gzungetc", "gzgets", "gzdirect", "gzclose_r"]),
+                   ("gzwrite.c", ["gz_init", "gz_comp", "gz_zero", "gz_write", "gzwrite", "gzfwrite", "gzputc", "gzputs", "gzflush",
+                                  "gzsetparams", "gzclose_w"]),
+                   ("gzlib.c", ["gz_reset", "gzbuffer", "gzrewind", "gzseek64", "gztell64", "gzoffset64", "gzeof", "gzclearerr", "gz_error"])):
+    for _n in _names:
+        PAIRS["%s:%s" % (_f, _n)] = [G + _n] + ([G + "gzrewind_help"] if _n == "gzrewind" else [])
+PAIRS["gzlib.c:gz_open"] = [G + "gzopen_help"]
+PAIRS["gzwrite.c:gz_write_init"] = [G + "gz_init"]
+PAIRS["gzlib.c:gzseek"] = [G + "gzseek64"]
+PAIRS["gzlib.c:gztell"] = [G + "gztell64"]
+PAIRS["gzlib.c:gzoffset"] = [G + "gzoffset64"]
+for _k in ("gzwrite.c:gz_init", "gzlib.c:gzseek64", "gzlib.c:gztell64", "gzlib.c:gzoffset64"):
+    PAIRS.pop(_k, None)
 
 ENUMS = {
     "Z_FINISH": "Finish", "Z_NO_FLUSH": "NoFlush", "Z_BLOCK": "Block", "Z_FULL_FLUSH": "FullFlush", "Z_PARTIAL_FLUSH": "PartialFlush",
@@ -73,6 +89,8 @@ ENUMS = {
     "need_more": "NeedMore", "block_done": "BlockDone", "finish_started": "FinishStarted", "finish_done": "FinishDone",
     "Z_FILTERED": "Filtered", "Z_HUFFMAN_ONLY": "HuffmanOnly", "Z_RLE": "Rle", "Z_FIXED": "Fixed", "Z_DEFAULT_STRATEGY": "Default",
     "Z_BINARY": "Binary", "Z_TEXT": "Text", "Z_UNKNOWN": "Unknown",
+    "GZ_READ": "GZ_READ", "GZ_WRITE": "GZ_WRITE", "GZ_APPEND": "GZ_APPEND", "GZ_NONE": "GZ_NONE", "LOOK": "Look", "GZIP": "Gzip",
+    "Z_ERRNO": "Z_ERRNO", "SEEK_SET": "SEEK_SET", "SEEK_CUR": "SEEK_CUR",
     "HEAD": "Head", "TYPE": "Type", "SYNC": "Sync", "DICT": "Dict", "MEM": "Mem", "BAD": "Bad", "CHECK": "Check", "STORED": "Stored",
     "COPY": "CopyBlock", "LEN": "Len", "LENGTH": "Length", "DONE": "Done",
 }
@@ -93,6 +111,8 @@ ALIAS = {
     "bits": {"bits_in_buffer", "bitreader::bits_in_buffer", "bits"}, "hold": {"hold", "bitreader::hold"},
     "block_open": {"block_open"}, "match_available": {"match_available"},
     "memlevel": {"mem_level"}, "w_bits": {"window_bits", "w_bits"},
+    "in": {"input", "in_size"}, "out": {"output"}, "size": {"in_size", "out_size", "size", "in_capacity", "out_capacity"}, "want": {"want"},
+    "strm": {"stream"}, "err": {"err"}, "msg": {"msg"}, "path": {"path"}, "fd": {"fd"}, "start": {"start"}, "raw": {"raw"},
 }
 LOCAL_ALIAS = {"windowbits": {"window_bits"}, "memlevel": {"mem_level"}, "dictlength": {"dictionary", "len"}, "dictlen": {"dictionary", "len"},
                "hash_head": {"hash_head"}, "bstate": {"bstate"}, "old_flush": {"old_flush"}, "val": {"val"}, "err": {"err"}, "ret": {"ret"}}
@@ -185,6 +205,9 @@ def matches(c, s, toks):
     for n in c["names"]:
         nl = n.lower()
         if nl in toks or n in s.names:
+            continue
+        rawn = c.get("raw", {}).get(n)
+        if rawn and (rawn.lower() in toks or rawn in s.names):
             continue
         mv = c.get("macro_values", {}).get(n)
         if mv is not None and mv in near:
@@ -293,6 +316,39 @@ def rust_callee_names(fns):
     return out
 
 
+def with_helpers(P, fns):
+    """the paired functions plus the local helpers they call (transitively) that are not themselves the counterpart of a
+    zlib-ng function: a condition, call or store that moved into an extracted helper is still the function's own"""
+    paired = {p for v in PAIRS.values() for p in v}
+    try:
+        from . import refwrites
+        paired |= set(refwrites.PAIRS.values())
+    except Exception:
+        pass
+    seen, out, work = set(), [], [f.path for f in fns]
+    roots = set(work)
+    while work:
+        p = work.pop()
+        if p in seen:
+            continue
+        seen.add(p)
+        f = P.fns.get(p)
+        if f is None:
+            continue
+        out.append(f)
+        if len(out) > 25:
+            break
+        for c in f.live_calls():
+            cp = c.callee
+            if cp and cp in P.fns and cp not in seen and cp not in paired and (cp.startswith(Z) or cp.startswith("libz_rs_sys::")):
+                g = P.fns[cp]
+                # only small private helpers: same crate, not a public API entry point
+                if g.j.get("vis") == "Public" and g.is_extern_c:
+                    continue
+                work.append(cp)
+    return out
+
+
 def check(ck, P, rule, only=None):
     try:
         table = load()
@@ -310,6 +366,8 @@ def check(ck, P, rule, only=None):
         st = []
         for f in fns:
             ck.use_fn(f)
+        allf = with_helpers(P, fns)
+        for f in allf:
             st += rust_atoms(f)
         cname = key.split(":")[1]
         for c in pins:
@@ -320,7 +378,18 @@ def check(ck, P, rule, only=None):
                       "a condition of its reference" % (cname, c["text"], ", ".join(f.path.replace(Z, "") for f in fns),
                                                         "/".join(c["fields"] + c["names"] + [str(k) for k in c["consts"]] + (c["locals"] if not c["fields"] and not c["names"] else []))),
                       where(fns[0]))
-        have = rust_callee_names(fns)
+        wr = set()
+        from . import refwrites
+        for f in fns:
+            w_, _c = refwrites.attributed(P, f)
+            wr |= {str(x).lower() for x in w_}
+        for cf in table.get("writes", {}).get(key, []):
+            n += 1
+            alts = ALIAS.get(cf.lower(), {cf.lower()}) | {cf.lower()}
+            ck.decide(bool(alts & wr), rule, "%s:stores:%s" % (cname, cf), "still stored",
+                      "zlib-ng's %s assigns `%s`; %s (with its helpers) no longer stores it: the port has lost a state update of its reference"
+                      % (cname, cf, ", ".join(f.path.replace(Z, "") for f in fns)), where(fns[0]))
+        have = rust_callee_names(allf)
         for cc in table.get("calls", {}).get(key, []):
             n += 1
             ck.decide(bool(call_candidates(cc) & have), rule, "%s:calls:%s" % (cname, cc), "counterpart call present",
